@@ -377,6 +377,24 @@ def run(rep, tier):
             # every path from the load to the function exit evaluates the guard condition
             ids = {s['id'] for s in sub(guard['c'][0]) if 'id' in s}
             guarded = c.all_paths_pass(c.pos.get(assign['id'], c.entry_pos()), ids)
+        # the guard fires for every foreign cache: its condition is a conjunction of presence tests and the md5 inequality only;
+        # any further conjunct lets a cache with another md5 survive
+        if guard is not None:
+            def conj(n):
+                n = strip(n)
+                if n['k'] == 'BinaryOperator' and n.get('op') == '&&':
+                    return conj(n['c'][0]) + conj(n['c'][1])
+                return [n]
+            extra = []
+            for cj in conj(guard['c'][0]):
+                qs = {x.get('callee', {}).get('q', '').split('::')[-1] for x in sub(cj)}
+                nm = {x.get('ref', {}).get('name') for x in sub(cj)}
+                presence = 'find' in qs and 'end' in qs and cj.get('op') == '!='
+                md5ne = '_md5' in nm and cj.get('op') == '!='
+                if not presence and not md5ne:
+                    extra.append(cj)
+            rep.check(not extra, 'R20.4', 'cache-guard|condition', locstr(guard), 'the guard that drops a foreign cache is conditioned on presence tests and the md5 inequality only%s' % (
+                '' if not extra else '; but ALSO on `%s`: a cache written for another version of the document survives when that conjunct is false' % ' '.join(fb.text(extra[0]).split())[:90]))
         if consumers and not guarded:
             rep.fail('R20.4', 'cache-consumer-unguarded', locstr(consumers[0][1]),
                      'cache content loaded at %s is consumed by %s without the md5 guard clearing a foreign cache on every path' % (locstr(assign), consumers[0][0].q))
